@@ -185,6 +185,8 @@ pub enum Op {
     RemoveResource(Ref),
     RemoveDataset(Ref),
     ProtectText(PMode),
+    /// `DELETE <TYPE> ?x { SELECT <TYPE> ?x WHERE ID "<id>"; }` through query_mut; kind is 'A', 'R' or 'S'
+    QueryDelete(char, String),
 }
 
 impl Op {
@@ -202,6 +204,9 @@ impl Op {
             Op::RemoveResource(_) => "remove_resource",
             Op::RemoveDataset(_) => "remove_dataset",
             Op::ProtectText(_) => "protect_text",
+            Op::QueryDelete('A', _) => "query_delete/annotation",
+            Op::QueryDelete('R', _) => "query_delete/resource",
+            Op::QueryDelete(_, _) => "query_delete/dataset",
         }
     }
     pub fn to_json(&self) -> Value {
@@ -216,6 +221,7 @@ impl Op {
             Op::RemoveResource(r) => json!({"remove_resource": r.to_json()}),
             Op::RemoveDataset(r) => json!({"remove_dataset": r.to_json()}),
             Op::ProtectText(m) => json!({"protect_text": format!("{:?}", m)}),
+            Op::QueryDelete(k, id) => json!({"query_delete": [k.to_string(), id]}),
         }
     }
 }
@@ -846,6 +852,21 @@ impl Model {
             Op::ProtectText(mode) => {
                 self.protect_text(*mode, &mut eff);
                 Pred::Ok(None)
+            }
+            Op::QueryDelete(kind, id) => {
+                // exactly the direct call on the rows of the sub-query
+                let direct = match kind {
+                    'A' => Op::RemoveAnnotation(Ref::Id(id.clone())),
+                    'R' => Op::RemoveResource(Ref::Id(id.clone())),
+                    _ => Op::RemoveDataset(Ref::Id(id.clone())),
+                };
+                let (p, e) = self.apply(&direct);
+                return match p {
+                    Pred::Ok(_) => (Pred::Ok(None), e),
+                    // a sub-query without rows deletes nothing and is not an error
+                    Pred::Err(_) => (Pred::Ok(None), e),
+                    other => (other, e),
+                };
             }
         };
         (pred, eff)
